@@ -266,14 +266,26 @@ void World::check_roundtrip(const dj::track_snapshot& written, dj::track& t,
     if (o.threw)
     {
         report("C01", base + "snapshot-throws", "snapshot() after an accepted write threw " + o.exc + ": " + o.what);
+        report("C03", std::string("C03|") + opname + "|" + fam() + "|stored-but-undecodable",
+               "the write was accepted but the stored performance data cannot be decoded: " + o.exc + ": " + o.what);
         return;
     }
     for (int f = 0; f < F_COUNT; ++f)
     {
         std::string why;
         if (!field_rule(f, written, r1, false, why))
+        {
             report("C01", base + "field:" + field_name(f), why);
+            // fields that live inside a performance-data blob: the codec did not
+            // return what it was given (C03)
+            bool blob_backed = f == F_BEATGRID || f == F_HOT_CUES || f == F_LOOPS || f == F_MAIN_CUE ||
+                               f == F_AVERAGE_LOUDNESS || f == F_SAMPLE_RATE || f == F_SAMPLE_COUNT ||
+                               (f == F_WAVEFORM && !v2) || (f == F_KEY && !v2);
+            if (blob_backed)
+                report("C03", std::string("C03|") + opname + "|" + fam() + "|codec:" + field_name(f), why);
+        }
     }
+    probes.hit("codec_roundtrip_checked");
     // fixed point: writing the read-back snapshot again changes nothing
     Outcome o2 = call(FaultSpec{}, [&] { t.update(r1); });
     if (o2.threw)
